@@ -408,3 +408,162 @@ Proof.
   - rewrite !(bind_lift_some _ _ _ _ _ _ E4). rewrite E. cbn [fst]. apply sim_load_entries; auto.
   - rewrite !(bind_lift_none _ _ _ _ E4). reflexivity.
 Qed.
+
+(* ------------------------------------------------------------------ statements for Props/Properties_C13_registry.v *)
+Theorem saved_keys_are_exact_paths n w m s : Inv n w ->
+  exists l, get_all_parameters w m = Some l /\
+    model_file_entries s w m = entries_of s l /\ map fst (model_file_entries s w m) = map fst l /\
+    sorted l /\ esorted (model_file_entries s w m) /\
+    sort_entries (model_file_entries s w m) = model_file_entries s w m /\
+    (forall k, In k (map fst (model_file_entries s w m)) <-> exists p, reach_param w m k p) /\
+    (forall k r, In (k, r) (model_file_entries s w m) <-> exists p, reach_param w m k p /\ r = s p).
+Proof.
+  intros HI. destruct (enumeration_exact n w m HI) as (l & E & _ & Hs & _ & Hl). exists l.
+  unfold model_file_entries. rewrite E. split; auto. split; auto. split; [apply keys_entries_of|].
+  split; auto. split; [apply esorted_entries_of; auto|]. split; [apply sort_entries_sorted, esorted_entries_of; auto|].
+  split.
+  - intros k. rewrite keys_entries_of, in_map_iff. split.
+    + intros ([k0 p] & <- & Hin). exists p. apply Hl. exact Hin.
+    + intros (p & Hr). exists (k, p). split; auto. apply Hl. exact Hr.
+  - intros k r. unfold entries_of. rewrite in_map_iff. split.
+    + intros ([k0 p] & Heq & Hin). simpl in Heq. injection Heq as <- <-. exists p. split; auto. apply Hl. exact Hin.
+    + intros (p & Hr & ->). exists (k, p). split; auto. apply Hl. exact Hr.
+Qed.
+
+Theorem saved_keys_nodup n w m s : Inv n w -> NoDup (map fst (model_file_entries s w m)).
+Proof.
+  intros HI. destruct (enumeration_exact n w m HI) as (l & E & _ & _ & Hnd & _).
+  unfold model_file_entries. rewrite E, keys_entries_of. exact Hnd.
+Qed.
+
+Theorem load_resolves_exactly_saved_keys n w m n' w' m' s l' : Inv n w -> Inv n' w' ->
+  same_structure w m w' m' -> get_all_parameters w' m' = Some l' ->
+  (forall k, map_find k l' = get_parameter w' m' k) /\
+  (forall k, In k (map fst (model_file_entries s w m)) -> exists p', get_parameter w' m' k = Some p') /\
+  (forall k, ~ In k (map fst (model_file_entries s w m)) -> get_parameter w' m' k = None).
+Proof.
+  intros HI HI' Hss E'. destruct (saved_keys_are_exact_paths n w m s HI) as (l & E & _ & _ & _ & _ & _ & Hk & _).
+  split; [apply (map_find_get_parameter n' w' m' l' HI' E')|]. split.
+  - intros k Hin. apply Hk, Hss in Hin. destruct Hin as (p' & Hr). exists p'. apply (get_parameter_spec n' w' HI'). exact Hr.
+  - intros k Hnin. destruct (get_parameter w' m' k) as [p'|] eqn:G; auto. exfalso. apply Hnin, Hk, Hss.
+    exists p'. apply (get_parameter_spec n' w' HI'). exact G.
+Qed.
+
+(* whenever two paths lead to the same Parameter object of the loading model, the file holds
+   the same record under both *)
+Definition compatible (s : store) (w : world) (m : mid) (w' : world) (m' : mid) : Prop :=
+  forall k1 k2 p' p1 p2, reach_param w' m' k1 p' -> reach_param w' m' k2 p' ->
+    reach_param w m k1 p1 -> reach_param w m k2 p2 -> s p1 = s p2.
+
+Theorem model_roundtrip_registry ws n w m n' w' m' s s0 rest :
+  Inv n w -> Inv n' w' -> same_structure w m w' m' ->
+  (forall k p, reach_param w m k p -> wf_path k /\ wf_param (s p)) ->
+  (N.of_nat (length (model_file_entries s w m)) < 2 ^ 32)%N ->
+  compatible s w m w' m' ->
+  exists s', load_model_reg ws w' m' (enc_model_file ws (model_file_entries s w m) ++ rest, s0) = (Some tt, (rest, s')) /\
+    (forall k p p', reach_param w m k p -> reach_param w' m' k p' -> s' p' = loaded ws (s p)) /\
+    (forall q, (forall k, ~ reach_param w' m' k q) -> s' q = s0 q).
+Proof.
+  intros HI HI' Hss Hwf Hlen Hc.
+  destruct (enumeration_exact n w m HI) as (l & E & _ & _ & _ & Hl).
+  destruct (enumeration_exact n' w' m' HI') as (l' & E' & _ & _ & _ & Hl').
+  pose proof (same_structure_keys n w m l n' w' m' l' HI HI' E E' Hss) as Hkeys.
+  unfold model_file_entries in *. rewrite E in *.
+  assert (Hlen2 : length (entries_of s l) = length l').
+  { unfold entries_of. rewrite map_length. rewrite <- (map_length fst l), <- Hkeys, map_length. reflexivity. }
+  exists (fold_left (assign ws) (combine (entries_of s l) l') s0). split; [|split].
+  - apply (load_model_reg_enc ws n' w' m' l'); auto.
+    + apply Forall_forall. intros [k r] Hin. unfold entries_of in Hin. apply in_map_iff in Hin.
+      destruct Hin as ([k0 p] & Heq & Hin). simpl in Heq. injection Heq as <- <-.
+      apply Hl in Hin. destruct (Hwf _ _ Hin). split; assumption.
+    + rewrite keys_entries_of. exact Hkeys.
+  - intros k p p' Hr Hr'. apply fold_assign_same.
+    + intros [e kp] Hin Hq. cbn [fst snd] in *.
+      destruct (combine_entries_of s l l' e kp Hkeys Hin) as (A & B & p2 & C & D).
+      rewrite D. symmetry. destruct kp as [k2 q]. cbn [fst snd] in *. subst q.
+      apply (Hc k k2 p' p p2); auto.
+      * apply Hl'. exact B.
+      * apply Hl. rewrite <- A. exact C.
+    + replace (map (fun y : (list bytes * param) * (path * pid) => snd (snd y)) (combine (entries_of s l) l'))
+        with (map snd (map snd (combine (entries_of s l) l'))) by (rewrite map_map; reflexivity).
+      rewrite combine_targets by exact Hlen2. apply Hl' in Hr'. apply (in_map snd) in Hr'. exact Hr'.
+  - intros q Hq. apply fold_assign_other.
+    replace (map (fun y : (list bytes * param) * (path * pid) => snd (snd y)) (combine (entries_of s l) l'))
+      with (map snd (map snd (combine (entries_of s l) l'))) by (rewrite map_map; reflexivity).
+    rewrite combine_targets by exact Hlen2. intros Hin. apply in_map_iff in Hin.
+    destruct Hin as ([k q0] & Heq & Hin). simpl in Heq. subst q0. apply (Hq k). apply Hl'. exact Hin.
+Qed.
+
+(* registries in which every reachable Parameter object has ONE path (no shared objects) *)
+Definition distinct_objects (w : world) (m : mid) : Prop :=
+  forall k1 k2 p, reach_param w m k1 p -> reach_param w m k2 p -> k1 = k2.
+
+Lemma compatible_distinct n w m w' m' s : Inv n w -> distinct_objects w' m' -> compatible s w m w' m'.
+Proof.
+  intros HI Hd k1 k2 p' p1 p2 H1 H2 H3 H4. rewrite (Hd k1 k2 p' H1 H2) in H3.
+  apply (get_parameter_spec n w HI) in H3, H4. congruence.
+Qed.
+Lemma compatible_same n w m s : Inv n w -> compatible s w m w m.
+Proof.
+  intros HI k1 k2 p' p1 p2 H1 H2 H3 H4.
+  apply (get_parameter_spec n w HI) in H1, H2, H3, H4. congruence.
+Qed.
+Lemma distinct_objects_nodup n w m l : Inv n w -> get_all_parameters w m = Some l ->
+  distinct_objects w m -> NoDup (map snd l).
+Proof.
+  intros HI E Hd. destruct (enumeration_exact n w m HI) as (l0 & E0 & _ & _ & Hnd & Hl).
+  rewrite E in E0. injection E0 as <-. clear E.
+  assert (Hsub : forall x, In x l -> In x l) by auto. revert Hsub Hnd. generalize l at 1 3 4 as l1.
+  induction l1 as [|[k p] l1 IH]; simpl; intros Hsub Hnd; constructor.
+  - intros Hin. apply in_map_iff in Hin. destruct Hin as ([k2 p2] & Heq & Hin). simpl in Heq. subst p2.
+    inversion Hnd as [|? ? Hk _]; subst. apply Hk.
+    assert (k = k2). { apply (Hd k k2 p); apply Hl, Hsub; auto. }
+    subst k2. apply (in_map fst) in Hin. exact Hin.
+  - inversion Hnd; subst. apply IH; auto.
+Qed.
+
+(* the composition with the io engine's theorem, for registries without shared objects: the
+   registry-level load, seen through the enumeration, is FileFormat.load_model, whose round trip
+   is C13_file_roundtrip_model with its NoDup hypothesis discharged by saved_keys_nodup *)
+Theorem model_roundtrip_registry_via_io ws n w m n' w' m' l l' s s0 rest :
+  Inv n w -> Inv n' w' -> get_all_parameters w m = Some l -> get_all_parameters w' m' = Some l' ->
+  same_structure w m w' m' ->
+  (forall k p, reach_param w m k p -> wf_path k /\ wf_param (s p)) ->
+  (N.of_nat (length l) < 2 ^ 32)%N -> distinct_objects w' m' ->
+  lift_state l' (load_model_reg ws w' m' (enc_model_file ws (entries_of s l) ++ rest, s0)) =
+    (Some tt, (rest, map (fun kp => (fst kp, loaded ws (snd kp))) (entries_of s l))).
+Proof.
+  intros HI HI' E E' Hss Hwf Hlen Hd.
+  rewrite <- (load_model_reg_refines_io ws n' w' m' l' HI' E' (distinct_objects_nodup n' w' m' l' HI' E' Hd)).
+  destruct (enumeration_exact n w m HI) as (l0 & E0 & _ & _ & Hnd & Hl). rewrite E in E0. injection E0 as <-.
+  apply file_roundtrip_model.
+  - apply Forall_forall. intros [k r] Hin. unfold entries_of in Hin. apply in_map_iff in Hin.
+    destruct Hin as ([k0 p] & Heq & Hin). simpl in Heq. injection Heq as <- <-.
+    apply Hl in Hin. destruct (Hwf _ _ Hin). split; assumption.
+  - rewrite keys_entries_of. exact Hnd.
+  - unfold entries_of. rewrite map_length. exact Hlen.
+  - rewrite !keys_entries_of. apply (same_structure_keys n w m l n' w' m' l' HI HI' E E' Hss).
+Qed.
+
+Lemma Forall2_map_same {A B} (R : B -> B -> Prop) (f g : A -> B) l :
+  Forall2 R (map f l) (map g l) -> forall x, In x l -> R (f x) (g x).
+Proof.
+  induction l as [|y l IH]; simpl; intros H x Hx; [tauto|]. inversion H; subst.
+  destruct Hx as [<-|Hx]; auto.
+Qed.
+
+(* C14 atomicity carried over to the registry-level load (registries without shared objects):
+   success or failure at any point, every reachable Parameter is exactly as it was or one
+   completely read record *)
+Theorem load_model_reg_atomic ws n w m l file s res b' s' : Inv n w ->
+  get_all_parameters w m = Some l -> distinct_objects w m ->
+  load_model_reg ws w m (file, s) = (res, (b', s')) ->
+  forall k p, reach_param w m k p -> s' p = s p \/ complete_record ws file (s' p).
+Proof.
+  intros HI E Hd Hload k p Hr.
+  pose proof (load_model_reg_refines_io ws n w m l HI E (distinct_objects_nodup n w m l HI E Hd) file s) as Hsim.
+  rewrite Hload in Hsim. unfold lift_state in Hsim. cbn [fst snd] in Hsim.
+  apply load_model_atomic in Hsim. unfold entries_of in Hsim.
+  destruct (enumeration_exact n w m HI) as (l0 & E0 & _ & _ & _ & Hl). rewrite E in E0. injection E0 as <-.
+  apply Hl in Hr. apply (Forall2_map_same _ _ _ _ Hsim (k, p) Hr).
+Qed.
